@@ -1,6 +1,7 @@
 import Driver.SimStep
 import Marwood.Heap.Check
 import Marwood.Vm.Verify
+import Marwood.Vm.ProcInv
 /-!
 Driver command `simgood`: the executable counterparts of the side conditions `Good` that the heap
 simulation theorems (Lemmas/SimMain.lean, T03.5 / T13.3) assume of every state along a run, evaluated on a
@@ -161,6 +162,15 @@ def typedCheck (s : St CHeap) : Option String :=
          | .argc n => if decide (n + 3 ≤ sp) && rangeValsB s.stack (sp - 3 - n) (sp - 3) then none else some "typed-pre"
          | _ => some "typed-pre")
 
+/-! ## "no value leads to entry code" (`Vm/ProcInv.lean`; `Lemmas/ProcInv*.lean`: `PInv`)
+
+The two clauses that make the callee guard (`CalleeOk`) an invariant, on the whole real state: every closure cell's
+lambda is a lambda cell holding procedure code; `acc`, the live stack cells, global slots, environment slots, vector
+elements, car / cdr of pair cells, continuation stack copies, MOVIMM / PUSHIMM immediates and symbol-table entries
+never point to an entry lambda (`statePB`; `statePB_sound : statePB s = true → PInv s`). -/
+
+def procCheck (s : St CHeap) : Option String := statePWhy s
+
 def isSynthetic (info : String) : Bool := (info.splitOn "+syn").length > 1
 
 def handle (args : List String) : Option String :=
@@ -178,8 +188,11 @@ def handle (args : List String) : Option String :=
         | some e => "bad " ++ e
         | none =>
           match (if isSynthetic info then none else typedCheck s) with
-          | none => "ok"
-          | some e => "bad " ++ e)
+          | some e => "bad " ++ e
+          | none =>
+            match procCheck s with
+            | none => "ok"
+            | some e => "bad " ++ e)
   | [] => none
 
 end Marwood.Driver.SimGood
